@@ -255,7 +255,7 @@ def run_overloads(part: Sequence[str], allsigs: Sequence[str], base: int, res: D
 
 DEFAULTS = ['(a + b)[0]', '(a or b)[0]', '(-a)[1]', '2 ** (a + b)[1]', '(a, b)[0]', '(lambda: 0)()', '(a if b else c).d', '(yield_ := 1)', '[*a, *b]', '{**a}', 'f(*a, **k)', 'a[1:2, ::3]', '1', '-1', "'s'", 'None', 'a.b', '(1, 2)', '(1,)', '[x]', '{}', 'x or y', 'lambda x, y=1: 0', 'f(a, k=1)', 'a - (b - c)', '(0.0, 0)', '0 + 0.0',
             "b\"it's\"", '{1, 2}', '-(a + b) * c']
-ANNOTS = ['int', 'None', "'None'", 'Optional[None]', "'int'", "'List[int]'", "List['A']", "Literal['a']", 'Optional["B"]', 'a.B', 'Callable[[int], str]', 'int | None', '"a.B"',
+ANNOTS = ['"A | B"', '"a - b"', '~"A | B"', 'int', 'None', "'None'", 'Optional[None]', "'int'", "'List[int]'", "List['A']", "Literal['a']", 'Optional["B"]', 'a.B', 'Callable[[int], str]', 'int | None', '"a.B"',
           'Tuple[int, ...]', "'Dict[str, \"A\"]'", 'C & "A | B"', '"A | B" & C', 'Tuple[()]', "Literal['A | B']", "typing.Literal['x', 1]", "'A' | 'B'",
           "Annotated[int, 'meta']", "Annotated['List[int]', 'not valid python', 3]", "t.Annotated[int, 'a | b']", "Optional[Annotated['A', 'unit']]", "'Callable[..., \"A\"]'",
           # Literal reached through any spelling: module aliases, nesting, inside a string annotation
@@ -313,6 +313,63 @@ def run_overload_stacks(res: Dict[str, Any]) -> None:
                 v['sig'] += '/' + label
 
 
+SCOPES_OV = ['module', 'class A', 'class B', 'nested A.N', 'plain-in-class C']
+
+
+def run_overload_scopes(res: Dict[str, Any]) -> None:
+    """the same function name in several scopes of one module - overloaded at module level, in two classes, in a nested class, plain in a third class -
+    for every order of the scopes and every subset of >= 2 scopes: each definition displays its own overloads (or its own signature), nobody else's"""
+    from pydoctor.templatewriter.pages import format_function_def, format_signature
+    import itertools as it
+
+    def block(scope: str, tag: str) -> Tuple[str, str, List[Tuple[str, str]]]:
+        sigs = [(f'x: int, {tag}: int = 1', ' -> int'), (f'x: str, {tag}: str = ...', ' -> str')]
+        if scope == 'module':
+            src = ''.join(f'@overload\ndef f({sg}){ret}: ...\n' for sg, ret in sigs) + f'def f(x, {tag}=None): pass\n'
+            return 'm.f', src, sigs
+        if scope.startswith('class'):
+            cn = scope.split()[1]
+            sigs = [('self, ' + sg, ret) for sg, ret in sigs]
+            src = f'class {cn}:\n' + ''.join(f'    @overload\n    def f({sg}){ret}: ...\n' for sg, ret in sigs) + f'    def f(self, x, {tag}=None): pass\n'
+            return f'm.{cn}.f', src, sigs
+        if scope.startswith('nested'):
+            sigs = [('self, ' + sg, ret) for sg, ret in sigs]
+            src = 'class A2:\n    class N:\n' + ''.join(f'        @overload\n        def f({sg}){ret}: ...\n' for sg, ret in sigs) + f'        def f(self, x, {tag}=None): pass\n'
+            return 'm.A2.N.f', src, sigs
+        src = f'class C:\n    def f(self, only_{tag}: bytes) -> bytes: pass\n'
+        return 'm.C.f', src, [(f'self, only_{tag}: bytes', ' -> bytes')]
+    for r in range(2, len(SCOPES_OV) + 1):
+        for combo in it.permutations(SCOPES_OV, r):
+            blocks = [block(sc, f't{i}') for i, sc in enumerate(combo)]
+            src = 'from typing import overload\n' + ''.join(b[1] for b in blocks)
+            s = pd.build_mem([pd.Mod('m', src)])
+            res['evals'] += 1
+            res['nontrivial_count'] += 1
+            case = {'kind': 'ovscopes', 'scopes': list(combo)}
+            for (full, _, sigs), sc in zip(blocks, combo):
+                fn = s.allobjects.get(full)
+                which = sc.split()[0] + '-after-' + '+'.join(x.split()[0] for x in combo[:combo.index(sc)]) if combo.index(sc) else sc.split()[0] + '-first'
+                if fn is None:
+                    res['violations'].append(core.violation(f'overload-scopes/missing/{sc.split()[0]}', f'{full} not documented in\n{src}', case))
+                    continue
+                if sc.startswith('plain'):
+                    shown = [text_of(format_signature(fn))]
+                    pre = ''
+                    if fn.overloads:
+                        res['violations'].append(core.violation(f'overload-scopes/foreign-overloads/{sc.split()[0]}', f'{full} shows {len(fn.overloads)} overloads it does not have, in\n{src}', case))
+                        continue
+                else:
+                    if len(fn.overloads) != len(sigs):
+                        res['violations'].append(core.violation(f'overload-scopes/count/{sc.split()[0]}', f'{full}: {len(fn.overloads)} overloads recorded for {len(sigs)} written ({which}), in\n{src}', case))
+                        continue
+                    shown = [text_of(format_function_def(fn.name, fn.is_async, ov))[len('def f'):].rstrip()[:-1] for ov in fn.overloads]
+                for line, (sg, ret) in zip(shown, sigs):
+                    before = len(res['violations'])
+                    compare(sg, ret, line, 'overload-scopes', case, res)
+                    for v in res['violations'][before:]:
+                        v['sig'] += '/' + sc.split()[0]
+
+
 def run_exprs(di: int, res: Dict[str, Any]) -> None:
     from pydoctor.templatewriter.pages import format_signature
     d = DEFAULTS[di]
@@ -336,6 +393,32 @@ def run_exprs(di: int, res: Dict[str, Any]) -> None:
         attribute(res['violations'][before:], dsig, a)
     if len(res['samples']) < 2:
         res['samples'].append({'source': f'def f({rows[4][0]}){rows[4][1]}', 'displayed': text_of(format_signature(s.allobjects['m.f4']))})
+
+
+def run_annotation_pairs(ai: int, res: Dict[str, Any]) -> None:
+    """every ordered pair of annotations in ONE signature (the same strings recur, nested in one place and alone in another): each is displayed like on its own"""
+    from pydoctor.templatewriter.pages import format_signature
+    a1 = ANNOTS[ai]
+    rows = [(f'p: {a1}, q: {a2}', f' -> {a1}') for a2 in ANNOTS] + [(f'p: {a2}, *, q: {a1} = 1', f' -> {a2}') for a2 in ANNOTS]
+    src = '\n'.join(f'def f{i}({t}){ret}: pass' for i, (t, ret) in enumerate(rows)) + '\n'
+    s = pd.build_mem([pd.Mod('m', src)])
+    for i, (t, ret) in enumerate(rows):
+        fn = s.allobjects[f'm.f{i}']
+        res['evals'] += 1
+        res['nontrivial_count'] += 1
+        a2 = ANNOTS[i % len(ANNOTS)]
+        case = {'kind': 'annpair', 'a1': ai, 'sig': t, 'ret': ret}
+        text = text_of(format_signature(fn))
+        before = len(res['violations'])
+        compare(t, ret, text, 'annotation-pairs', case, res)
+        # attribute to the annotation that is wrong also on its own (known single-annotation findings keep their signature), else to the pair
+        for v in res['violations'][before:]:
+            if v['sig'].endswith(('annotation', 'returns', 'unparsable')):
+                alone = [a for a in (a1, a2) if any(k.endswith('/annotation:' + core.h(a)[:6]) for k in KNOWN_SINGLE)]
+                v['sig'] += '/annotation:' + core.h(alone[0])[:6] if alone else '/in-a-pair'
+
+
+KNOWN_SINGLE: set = set()
 
 
 def run_depth2(pi: int, res: Dict[str, Any]) -> None:
@@ -389,6 +472,9 @@ def jobs(tier: str) -> Iterable[Tuple[str, Any]]:
     for pi in range(len(c15.FORMS)):
         yield ('depth2-exprs', ('depth2', pi))
     yield ('overload-decorator-stacks', ('ovstacks',))
+    yield ('overloads-same-name-in-several-scopes', ('ovscopes',))
+    for ai in range(len(ANNOTS)):
+        yield ('annotation-pairs', ('annpairs', ai))
     if tier == 'thorough':
         for k in KINDS:
             for d in (0, 1):
@@ -431,6 +517,10 @@ def run_job(job: Any, tier: str) -> Dict[str, Any]:
         run_depth2(job[1], res)
     elif job[0] == 'ovstacks':
         run_overload_stacks(res)
+    elif job[0] == 'ovscopes':
+        run_overload_scopes(res)
+    elif job[0] == 'annpairs':
+        run_annotation_pairs(job[1], res)
     return res
 
 
@@ -438,6 +528,12 @@ def replay(case: Dict[str, Any]) -> List[Dict[str, Any]]:
     res = core.result()
     if case['kind'] == 'ovstack':
         run_overload_stacks(res)
+        return [v for v in res['violations'] if v['case'] == case]
+    if case['kind'] == 'ovscopes':
+        run_overload_scopes(res)
+        return [v for v in res['violations'] if v['case'] == case]
+    if case['kind'] == 'annpair':
+        run_annotation_pairs(case['a1'], res)
         return [v for v in res['violations'] if v['case'] == case]
     if case['kind'] == 'layout':
         run_layouts([case['sig']], case['ctx'], case['ret'], 0, res)
